@@ -118,6 +118,10 @@ def decision_walk(F, flags_n, ctx_n, flags, status):
             v = field_store(F, I, "error", is_arg_root(ctx_n))
             if v is not None:
                 c = F.const_int(v)
+                if c is None:
+                    c = ir.eval_expr(F, v, leaf)
+                    if c is not None and c >= 1 << 31:
+                        c -= 1 << 32
                 if c is not None and c != 0:
                     stores_err = c
                 elif c == 0:
@@ -185,11 +189,17 @@ def run(chk):
         rejects = {}
         memo = {}
         for P in paths:
+            if P.contradictory(F):
+                continue
             errstores = []
-            for I in P.insts:
+            for pos, I in enumerate(P.insts):
                 v = field_store(F, I, "error", is_arg_root(ctx_n))
                 if v is not None:
                     c = F.const_int(v)
+                    if c is None:
+                        # a value chosen earlier on this path (e.g. the verdict of an inlined validation helper)
+                        r = P.at(F, v, P.bidx[pos])
+                        c = r if isinstance(r, int) else (F.const_int(r) if isinstance(r, dict) else None)
                     if c is not None and c != 0:
                         errstores.append((I, c))
             rv = F.resolve(P.retinst.ops[0]) if P.retinst.op == "ret" and P.retinst.ops else None
